@@ -34,7 +34,7 @@ UNFOLD = sorted(set(c05.UNFOLD + c12.UNFOLD + (
 DEN = 4
 
 
-def gen_case(rng):
+def gen_any_case(rng):
     fkind = rng.choice(['G', 'G', 'LN', 'GKDE', 'LNKDE', 'GMIX'])
     n_s = 4 if fkind == 'GMIX' else rng.choice([2, 3])
     n_out = rng.choice([1, 1, 2])
@@ -165,6 +165,31 @@ def psi_of(case):
     S = [Sub(**d) for d in case['subs']]
     hv = case['bottom'] + case['top']
     return popspec.psi_exprs(S, case['n_s'], hv, case['chis'])
+
+
+def degenerate(case):
+    """a mixture component (or the whole Gaussian / log-normal summary) built from identical simulated measurements
+    has zero variance: the filter's density is not defined there (chi's floats then go through 0/0 and inf)"""
+    try:
+        y = simulated(case)
+    except (OverflowError, ValueError):
+        return True
+    for r in range(case['n_out']):
+        for j in range(len(case['times'])):
+            col = [y[s][r][j] for s in range(case['n_s'])]
+            if case['fkind'] == 'GMIX':
+                if any(col[k] == col[k + 1] for k in range(0, len(col) - 1, 2)):
+                    return True
+            elif case['fkind'] in ('G', 'LN') and len(set(col)) == 1:
+                return True
+    return False
+
+
+def gen_case(rng):
+    while True:
+        case = gen_any_case(rng)
+        if not degenerate(case):
+            return case
 
 
 def simulated(case):
@@ -311,7 +336,14 @@ def direct(case, res):
         post, prior, S, fixed = build(case)
         v = np.array(vector(case), dtype=float)
         arg = v if fixed is None else np.delete(v, fixed)
-        return stable_fd_check(post, arg, res['grad'])
+        d = stable_fd_check(post, arg, res['grad'])
+        if d:
+            return d
+
+        def evaluate(x):
+            s1, g = post.evaluateS1(x)
+            return float(post(x)), float(s1), np.asarray(g, dtype=float)
+        return core.typed_problem(evaluate, arg, 'the filter log-posterior (value, score, sensitivities)')
     return None
 
 
@@ -387,8 +419,7 @@ def oracle(case):
     post, prior, S, fixed = build(case)
     v = np.array(vector(case), dtype=float)
     arg = v if fixed is None else np.delete(v, fixed)
-    from harness import c03
-    return c03.fd_check(post, arg, res['grad'], 'filter log-posterior')
+    return stable_fd_check(post, arg, res['grad'])
 
 
 def key_of(case, what):
